@@ -1,60 +1,12 @@
 (* Runner: reads a case file (one case per line: id TAB field TAB field ...), evaluates the
    extracted Coq model, prints "id TAB record".  Records are canonical strings that the Rust
-   harness prints identically for the implementation. *)
-open Model
+   harness prints identically for the implementation.  Streams live in s_*.ml and register
+   themselves in Util.streams. *)
 open Util
-
-let res_str (f : 'a -> string) (r : 'a res) : string =
-  match r with
-  | Ok a -> f a
-  | Err _ -> "ERR"
-  | Panic _ -> "PANIC"
-  | OutOfFuel -> "HANG"
-
-let tokens_s (ts : (kind * n list) list) =
-  cat "," (List.map (fun (k, s) -> string_of_int (int_of_n (kind_code k)) ^ ":" ^ hx s) ts)
-
-let items_s (it : (n list * n list) list) =
-  cat "," (List.map (fun (k, v) -> hx k ^ "=" ^ hx v) it)
-let doc_items_s (d : (n list * n list) list list) = cat ";" (List.map items_s d)
-
-(* stream deb822-parse: fields = [hex input] *)
-let deb822_parse (fs : string list) : string =
-  let s = str_of_hex (List.nth fs 0) in
-  let lx = res_str tokens_s (lex s) in
-  let rel = res_str (fun (t, n) ->
-      Printf.sprintf "text=%s|nerr=%d|depth=%d|paras=%s" (hx (text t)) (int_of_nat n)
-        (int_of_nat (depth t)) (doc_items_s (doc_items t))) (from_str_relaxed s) in
-  let strict = res_str (fun t -> "OK:" ^ hx (text t) ^ ":" ^ doc_items_s (doc_items t)) (from_str s) in
-  Printf.sprintf "lex=%s|%s|strict=%s" lx rel strict
-
-(* a record any of whose parts is HANG is HANG as a whole (the harness can only kill the whole case) *)
-let whole_hang (parts : string list) (r : string) = if List.mem "HANG" parts then "HANG" else r
-
-let rtokens_s (ts : (rkind * n list) list) =
-  cat "," (List.map (fun (k, s) -> string_of_int (int_of_n (rkind_code k)) ^ ":" ^ hx s) ts)
-
-(* stream rel-parse: fields = [hex input] *)
-let rel_parse (fs : string list) : string =
-  let s = str_of_hex (List.nth fs 0) in
-  let lx = res_str rtokens_s (rlex s) in
-  let relaxed allow = res_str (fun (t, n) -> Printf.sprintf "%s:%d:%d" (hx (text t)) (int_of_nat n) (int_of_nat (depth t)))
-      (parse_relaxed s allow) in
-  let r0 = relaxed false and r1 = relaxed true in
-  let strict = res_str (fun t -> "OK:" ^ hx (text t)) (relations_from_str s) in
-  let ent = res_str (fun t -> "OK:" ^ hx (text t)) (entry_from_str s) in
-  let rel = res_str (fun t -> "OK:" ^ hx (text t)) (relation_from_str s) in
-  whole_hang [lx; r0; r1; strict; ent; rel]
-    (Printf.sprintf "lex=%s|r0=%s|r1=%s|strict=%s|entry=%s|relation=%s" lx r0 r1 strict ent rel)
-
-let streams : (string * (string list -> string)) list ref = ref [
-  ("deb822-parse", deb822_parse);
-  ("rel-parse", rel_parse);
-]
 
 let () =
   let stream = Sys.argv.(1) in
-  let f = try List.assoc stream !streams with Not_found -> (prerr_endline ("unknown stream " ^ stream); exit 2) in
+  let f = try L.assoc stream !streams with Not_found -> (prerr_endline ("unknown stream " ^ stream); exit 2) in
   let ic = if Array.length Sys.argv > 2 then open_in Sys.argv.(2) else stdin in
   (try
     while true do
